@@ -538,7 +538,11 @@ func randCellText(r *rand.Rand) string {
 	if r.Intn(10) == 0 { // a long chain
 		c := boc.NewCell()
 		c.WriteUint(uint64(r.Intn(256)), 8)
-		for i := 0; i < 40+r.Intn(60); i++ {
+		links := 40 + r.Intn(60)
+		if r.Intn(3) == 0 { // around the 1-byte / 2-byte counter boundary of a bag: 255, 256, 257 distinct cells
+			links = 252 + r.Intn(7)
+		}
+		for i := 0; i < links; i++ {
 			p := boc.NewCell()
 			p.WriteUint(uint64(i), 16)
 			p.AddRef(c)
@@ -917,6 +921,8 @@ func regHandwritten() {
 	regNative("magic", 0, func() any { return new(tlb.Magic) })
 	regBytes("tonbits256", 0, 32, func() any { return new(ton.Bits256) })
 	regBytes("tlint256", 0, 32, func() any { return new(tl.Int256) })
+	handlers["tonbits256:0"].Name = "ton.Bits256" // not to be confused with tlb.Bits256
+	handlers["tlint256:0"].Name = "tl.Int256"
 
 	reg(&Handler{TD: TD{T: "bitstring"}, Name: "BitString", New: func() any { return new(boc.BitString) },
 		Build: func(val any) (any, error) {
